@@ -186,15 +186,15 @@ def illFrom (env : Env) : Nat → Json → Str → Json → Json → Nat → St 
       illState env fuel states name state data ctx retries st
 termination_by structural fuel => fuel
 
-def illLeave (env : Env) : Nat → Json → Str → Json → Json → Json → Nat → St → Bool
-  | 0, _, _, _, _, _, _, _ => false
-  | fuel + 1, states, name, state, data, ctx, retries, st =>
+def illLeave (env : Env) : Nat → Json → Str → Json → Json → Json → Json → Nat → St → Bool
+  | 0, _, _, _, _, _, _, _, _ => false
+  | fuel + 1, states, name, state, raw, data, ctx, retries, st =>
     if isTrue (fld state "End") then false
     else match fldStr state "Next" with
       | none => true                                                                 -- site (b)
       | some next =>
         if (render data).length > env.maxData then
-          illErr env fuel states name state data ctx retries (S "States.DataLimitExceeded") (S "m") st
+          illErr env fuel states name state raw ctx retries (S "States.DataLimitExceeded") (S "m") st
         else illFrom env fuel states next data ctx 0 st
 termination_by structural fuel => fuel
 
@@ -237,7 +237,7 @@ def illState (env : Env) : Nat → Json → Str → Json → Json → Json → N
           let result := (fld state "Result").getD params
           match mergeResult data ctx result state with
           | .error pe => fail pe st
-          | .ok out => illLeave env fuel states name state out ctx retries st
+          | .ok out => illLeave env fuel states name state data out ctx retries st
     else if ty = S "Succeed" then
       match applyPath data ctx (pathArg state "InputPath") with
       | .error pe => fail pe st
@@ -265,7 +265,7 @@ def illState (env : Env) : Nat → Json → Str → Json → Json → Json → N
         | .ok () =>
           match applyPath input ctx (pathArg state "OutputPath") with
           | .error pe => fail pe st
-          | .ok out => illLeave env fuel states name state out ctx retries st
+          | .ok out => illLeave env fuel states name state data out ctx retries st
     else if ty = S "Choice" then
       match applyPath data ctx (pathArg state "InputPath") with
       | .error pe => fail pe st
@@ -294,7 +294,7 @@ def illState (env : Env) : Nat → Json → Str → Json → Json → Json → N
           | .ok params =>
             let (n, counts) := bump st.counts (fn, params)
             let st := { st with counts := counts }
-            match decodeReply (env.task fn params n) with
+            match taskReply env.maxData (env.task fn params n) with
             | .err e msg => illErr env fuel states name state data ctx retries e msg st
             | .ok v =>
               match tmplOpt env v ctx (fld state "ResultSelector") with
@@ -302,7 +302,7 @@ def illState (env : Env) : Nat → Json → Str → Json → Json → Json → N
               | .ok result =>
                 match mergeResult data ctx result state with
                 | .error pe => fail pe st
-                | .ok out => illLeave env fuel states name state out ctx retries st
+                | .ok out => illLeave env fuel states name state data out ctx retries st
     else if ty = S "Parallel" then
       match applyPath data ctx (pathArg state "InputPath") with
       | .error pe => fail pe st
@@ -341,7 +341,9 @@ def illJoin (env : Env) : Nat → Json → Str → Json → Json → Json → Na
   | fuel + 1, states, name, state, data, ctx, retries, r, st =>
     match r with
     | .error (.failed e cause _) =>
-      let msg : Str := match cause with | some _ => S "m" | none => []
+      -- `if error_message:` — a branch that failed without a Cause, or with a falsy one (a Fail state with
+      -- `Cause: ""`), gives an Error Output without `Cause`
+      let msg : Str := if isTrue cause then S "m" else []
       illErr env fuel states name state data ctx retries e msg st
     | .error _ => false
     | .ok results =>
@@ -350,7 +352,7 @@ def illJoin (env : Env) : Nat → Json → Str → Json → Json → Json → Na
       | .ok result =>
         match mergeResult data ctx result state with
         | .error pe => illErr env fuel states name state data ctx retries (errName pe) (S "m") st
-        | .ok out => illLeave env fuel states name state out ctx retries st
+        | .ok out => illLeave env fuel states name state data out ctx retries st
 termination_by structural fuel => fuel
 
 def illBranches (env : Env) : Nat → List Json → Json → Json → St → Bool
